@@ -239,6 +239,14 @@ def check(ctx):
                    "reverse join receives the by-tuples with left/right swapped" if rev else
                    f"reverse join {recv}.left_join({first}, ...) swaps the operands but reuses the by-tuples unswapped: "
                    f"renamed keys are looked up on the wrong side", clause="key columns may be named differently on the two sides")
+    anti = [c for f, c in calls_in(fj) if isinstance(c.func, ast.Attribute) and c.func.attr == "anti_join"]
+    ok = bool(anti) and all(len(c.args) == 2 and norm(c.args[0]) == "ab" and isinstance(c.args[1], ast.Constant) and c.args[1].value == "_bid_"
+                            for c in anti)
+    ctx.ob("SIB-6", fj, norm(anti[0]) if anti else "b.anti_join(ab, '_bid_')", anti[0] if anti else fj.node, ok,
+           "right rows still to be added are those whose synthetic row id does not occur in the left-join result" if ok else
+           "unused right rows are not determined by the synthetic row id against the left-join result: left_join consumes only the "
+           "FIRST right row per key, so further right rows sharing a matched key are neither joined nor appended -- they vanish",
+           clause="full_join contains every right row at least once")
     ren = [n for n in ast.walk(fj.node) if isinstance(n, ast.Assign) and isinstance(n.targets[0], ast.Subscript)
            and isinstance(n.value, ast.Call) and isinstance(n.value.func, ast.Attribute) and n.value.func.attr == "pop"]
     ok = bool(ren) and all(norm(n.targets[0].slice).endswith("[0]") and norm(n.value.args[0]).endswith("[1]") for n in ren)
